@@ -212,6 +212,9 @@ pub trait Sut<K> {
     fn clear(&mut self) -> bool { false }
     /// maintenance operation that must not change the abstract state
     fn extra(&mut self, _which: u8) -> Result<(), String> { Ok(()) }
+    /// huge_* histories: may maintenance op `which` be run with `live` live keys? (false only where the call is known not to terminate in
+    /// reasonable time on the unchanged tree, see EasyHashMap::shrink_to_fit)
+    fn huge_extra_ok(&self, _which: u8, _live: usize) -> bool { true }
     fn coverage(&self, _c: &mut Case) {}
 }
 
@@ -276,6 +279,121 @@ pub fn exec<K: Clone + Ord + Debug, M: Sut<K>>(c: &mut Case, m: &mut M, pool: &[
     }
     m.coverage(c);
     Ok(())
+}
+
+
+// ---------------------------------------------------------------------------------------------------------------
+// huge_* families: > 65536 / > 131072 live elements, growth across many resize steps, then the operations that
+// re-index / relink / rehash (remove, get_mut, iterate, reserve / shrink / revoke, clear). Oracle: the same model map,
+// but lookups of every key only at the verification points and `len()` only at the 2^16 / 2^17 boundaries
+// (ZiporaHashMap::len is O(capacity)); lookups that can cost O(table) (absent keys in a table without empty slots) are sampled.
+// ---------------------------------------------------------------------------------------------------------------
+const HUGE_NS: &[usize] = &[65535, 65536, 65537, 70001, 100003, 131071, 131072, 131073, 131074, 140001];
+fn huge_boundary(i: usize) -> bool { matches!(i, 65535 | 65536 | 65537 | 131071 | 131072 | 131073 | 131074) }
+
+fn huge_verify<K: Clone + Ord + Debug, M: Sut<K>>(c: &mut Case, m: &M, model: &BTreeMap<K, u64>, absent: &[K], iter: bool, phase: &str) -> Res {
+    let l = m.len(); c.ev(1); ensure!(l == model.len(), "len", "{phase}: len()={l} want {}", model.len());
+    for (k, v) in model { let got = m.get(k); c.ev(1); if let Some(cl) = cmp_get("get", got, Some(*v)) { return Err(bad(&cl, format!("{phase}: get({k:?})={got:?} want Some({v}) with {} live keys", model.len()))); } }
+    for k in absent { let got = m.get(k); c.ev(2); if let Some(cl) = cmp_get("get", got, None) { return Err(bad(&cl, format!("{phase}: get({k:?})={got:?} want None (key was removed / never inserted), {} live keys", model.len()))); }
+        ensure!(!m.contains(k), "contains", "{phase}: contains_key({k:?})=true want false"); }
+    if iter {
+        for (name, mut got) in m.iters() {
+            c.ev(1); c.note("iter_checks", 1); got.sort(); let n = got.len(); let cls = |kind: &str| format!("{name}_{kind}");
+            for w in got.windows(2) { if w[0].0 == w[1].0 { return Err(bad(&cls("dup"), format!("{phase}: {name}() yields key {:?} twice; yielded {n}, {} live", w[0].0, model.len()))); } }
+            for (k, v) in &got { match model.get(k) { None => return Err(bad(&cls("ghost"), format!("{phase}: {name}() yields ({k:?},{v}) which is not live; yielded {n}, {} live", model.len()))), Some(w) if w != v => return Err(bad(&cls("value"), format!("{phase}: {name}() yields ({k:?},{v}) want value {w}"))), _ => {} } }
+            if n != model.len() { let miss = model.keys().find(|k| got.binary_search_by(|p| p.0.cmp(k)).is_err()); return Err(bad(&cls("missing"), format!("{phase}: {name}() yielded {n} of {} live entries, e.g. missing {miss:?}", model.len()))); }
+        }
+    }
+    Ok(())
+}
+
+/// which keys the removal phase deletes
+#[derive(Clone, Copy, Debug)]
+pub enum HugeRm { EveryOther, FirstHalf, AllButOne, RandomThird }
+
+/// grow to keys.len() live entries, verify, maintenance, remove per `rm`, verify, re-insert `reins` removed keys + updates + get_mut, verify,
+/// optionally clear and start again with a few keys
+pub fn huge_history<K: Clone + Ord + Debug, M: Sut<K>>(c: &mut Case, m: &mut M, keys: &[K], rm: HugeRm, reins: usize, iter: bool, clear_end: bool) -> Res {
+    // an open-addressing table that is (almost) exactly full keeps no empty slot after the removals: every miss / re-insert scans the table
+    let n = keys.len(); let reins = if n.is_power_of_two() || (n + 1).is_power_of_two() { reins.min(300) } else { reins }; let mut model: BTreeMap<K, u64> = BTreeMap::new(); let mut val = 0u64;
+    let mut r = c.rng.fork();
+    // ---- growth
+    for (i, k) in keys.iter().enumerate() {
+        val += 1; let got = m.insert(k.clone(), val).map_err(|e| bad("insert_err", format!("grow: insert #{i} ({k:?}) returned Err({e}) with {} live keys", model.len())))?;
+        if m.reports_prev() { c.ev(1); ensure!(got.is_none(), "insert_ret_new", "grow: insert #{i} of new key {k:?} returned {got:?} want None ({} live keys)", model.len()); }
+        model.insert(k.clone(), val);
+        let live = i + 1;
+        if huge_boundary(live) || live == n {
+            let l = m.len(); c.ev(1); ensure!(l == live, "len", "grow: len()={l} want {live} after insert #{i}");
+            for j in 0..48usize { let q = if j < 4 { i - j.min(i) } else { r.usize_below(live) }; let got = m.get(&keys[q]); let want = model.get(&keys[q]).copied(); c.ev(1);
+                if let Some(cl) = cmp_get("get", got, want) { return Err(bad(&cl, format!("grow: get(key #{q} {:?})={got:?} want {want:?} with {live} live keys", keys[q]))); } }
+        }
+        if i % 4096 == 4095 {
+            let q = r.usize_below(live); let got = m.get(&keys[q]); let want = model.get(&keys[q]).copied(); c.ev(1);
+            if let Some(cl) = cmp_get("get", got, want) { return Err(bad(&cl, format!("grow: get(key #{q} {:?})={got:?} want {want:?} with {live} live keys", keys[q]))); }
+            let u = r.usize_below(live); val += 1; let got = m.insert(keys[u].clone(), val).map_err(|e| bad("insert_err", format!("grow: update of key #{u} returned Err({e})")))?; let want = model.insert(keys[u].clone(), val);
+            if m.reports_prev() { c.ev(1); ensure!(got == want, "insert_ret_update", "grow: insert(key #{u} {:?},{val}) returned {got:?} want {want:?} with {live} live keys", keys[u]); }
+            let g = r.usize_below(live); val += 1; if let Some(got) = m.get_mut_set(&keys[g], val) { let want = model.insert(keys[g].clone(), val); c.ev(1);
+                if let Some(cl) = cmp_get("get_mut", got, want) { return Err(bad(&cl, format!("grow: get_mut(key #{g} {:?})={got:?} want {want:?} with {live} live keys", keys[g]))); } } else { val -= 1; }
+        }
+    }
+    c.note("huge_n", n as u64);
+    c.log(format!("huge: grown to {n}")); huge_verify(c, m, &model, &[], iter, "after growth")?; c.log("huge: verified after growth");
+    // ---- maintenance on the full table
+    for e in 0..4u8 { if !m.huge_extra_ok(e, model.len()) { continue; } m.extra(e).map_err(|er| bad("maintenance_err", format!("after growth: maintenance op {e} returned Err({er})")))?; }
+    { let q = r.usize_below(n); let got = m.get(&keys[q]); let want = model.get(&keys[q]).copied(); if let Some(cl) = cmp_get("get", got, want) { return Err(bad(&cl, format!("after maintenance on the full table: get(key #{q})={got:?} want {want:?}"))); } }
+    c.log("huge: maintenance done, removing");
+    // ---- removal
+    let mut removed: Vec<usize> = Vec::new();
+    let third: Vec<usize> = if let HugeRm::RandomThird = rm { let mut v: Vec<usize> = (0..n).collect(); r.shuffle(&mut v); v.truncate(n / 3); v } else { vec![] };
+    let victims: Vec<usize> = match rm { HugeRm::EveryOther => (0..n).step_by(2).collect(), HugeRm::FirstHalf => (0..n / 2).collect(), HugeRm::AllButOne => (0..n).filter(|&i| i != n / 3).collect(), HugeRm::RandomThird => third };
+    for &i in &victims {
+        let got = m.remove(&keys[i]).map_err(|e| bad("remove_err", format!("remove of key #{i} returned Err({e})")))?; let want = model.remove(&keys[i]); c.ev(1);
+        if let Some(cl) = cmp_get("remove", got, want) { return Err(bad(&cl, format!("removal phase: remove(key #{i} {:?}) returned {got:?} want {want:?}; {} live keys left of {n}", keys[i], model.len()))); }
+        removed.push(i);
+    }
+    c.note("huge_removed", removed.len() as u64);
+    // removed keys looked up again (sampled: may cost O(table) each in an open-addressing table without empty slots)
+    let mut absent: Vec<K> = Vec::new(); for j in 0..removed.len().min(64) { absent.push(keys[removed[(j * 7919) % removed.len()]].clone()); }
+    for k in absent.iter().take(16) { let got = m.remove(k).map_err(|e| bad("remove_err", format!("second remove returned Err({e})")))?; c.ev(1); if let Some(cl) = cmp_get("remove", got, None) { return Err(bad(&cl, format!("removal phase: second remove({k:?}) returned {got:?} want None"))); } }
+    c.log(format!("huge: removed {}", removed.len())); huge_verify(c, m, &model, &absent, iter, "after removal")?; c.log("huge: verified after removal");
+    for e in 0..4u8 { if !m.huge_extra_ok(e, model.len()) { continue; } m.extra(e).map_err(|er| bad("maintenance_err", format!("after removal: maintenance op {e} returned Err({er})")))?; }
+    huge_verify(c, m, &model, &absent, false, "after removal + maintenance")?;
+    c.log("huge: maintenance after removal done");
+    // ---- re-insertion of removed keys, updates and get_mut of survivors
+    r.shuffle(&mut removed);
+    for &i in removed.iter().take(reins) { val += 1; let got = m.insert(keys[i].clone(), val).map_err(|e| bad("insert_err", format!("re-insert of key #{i} returned Err({e})")))?; let want = model.insert(keys[i].clone(), val);
+        if m.reports_prev() { c.ev(1); ensure!(got == want, "insert_ret_new", "re-insertion phase: insert(removed key #{i} {:?}) returned {got:?} want {want:?}", keys[i]); } }
+    let live: Vec<K> = model.keys().step_by((model.len() / 2000).max(1)).cloned().collect();
+    for (j, k) in live.iter().enumerate() { val += 1;
+        if j % 2 == 0 { let got = m.insert(k.clone(), val).map_err(|e| bad("insert_err", format!("update returned Err({e})")))?; let want = model.insert(k.clone(), val); if m.reports_prev() { c.ev(1); ensure!(got == want, "insert_ret_update", "re-insertion phase: insert(live key {k:?},{val}) returned {got:?} want {want:?}"); } }
+        else if let Some(got) = m.get_mut_set(k, val) { let want = model.insert(k.clone(), val); c.ev(1); if let Some(cl) = cmp_get("get_mut", got, want) { return Err(bad(&cl, format!("re-insertion phase: get_mut({k:?})={got:?} want {want:?}"))); } } }
+    c.log("huge: re-inserted / updated");
+    let absent2: Vec<K> = absent.iter().filter(|k| !model.contains_key(k)).cloned().collect();
+    huge_verify(c, m, &model, &absent2, iter, "after re-insertion")?;
+    // ---- clear and restart
+    if clear_end && m.clear() {
+        model.clear(); let l = m.len(); ensure!(l == 0, "len", "after clear: len()={l} want 0");
+        for &i in &[0usize, n / 2, n - 1] { let got = m.get(&keys[i]); if let Some(cl) = cmp_get("get", got, None) { return Err(bad(&cl, format!("after clear: get(key #{i})={got:?} want None"))); } }
+        for i in (0..n).step_by((n / 300).max(1)) { val += 1; let got = m.insert(keys[i].clone(), val).map_err(|e| bad("insert_err", format!("insert after clear returned Err({e})")))?; if m.reports_prev() { ensure!(got.is_none(), "insert_ret_new", "after clear: insert(key #{i}) returned {got:?} want None"); } model.insert(keys[i].clone(), val); }
+        huge_verify(c, m, &model, &[], iter, "after clear + re-fill")?;
+    }
+    m.coverage(c);
+    Ok(())
+}
+fn huge_rm(r: &mut Rng) -> HugeRm { *r.pick(&[HugeRm::EveryOther, HugeRm::FirstHalf, HugeRm::AllButOne, HugeRm::RandomThird]) }
+/// u64 key shapes at huge sizes: dense 1..=n, keys differing only in the high bytes, random, multiples of 65536 (+1)
+fn huge_u64_keys(r: &mut Rng, n: usize, shape: u32) -> Vec<u64> {
+    let mut v: Vec<u64> = match shape % 4 { 0 => (1..=n as u64).collect(), 1 => (1..=n as u64).map(|i| (i << 40) | 7).collect(), 2 => { let mut s = BTreeSet::new(); while s.len() < n { let x = r.next(); if x != 0 && x != u64::MAX { s.insert(x); } } s.into_iter().collect() } _ => (1..=n as u64).map(|i| i * 65536 + 1).collect() };
+    r.shuffle(&mut v); v
+}
+const HUGE_SHAPES: [&str; 4] = ["dense", "highbytes", "random", "stride65536"];
+/// String keys: long shared prefix + decimal index, plus the full 256-way fan-out under that prefix (one char U+0000..U+00FF appended)
+fn huge_str_keys(r: &mut Rng, n: usize) -> Vec<String> {
+    let plen = *r.pick(&[0usize, 7, 64, 300]); let prefix: String = (0..plen).map(|i| (b'a' + (i % 3) as u8) as char).collect();
+    let mut v: Vec<String> = (0..n.saturating_sub(256)).map(|i| format!("{prefix}#{i}")).collect();
+    for b in 0..256u32 { v.push(format!("{prefix}{}", char::from_u32(b).unwrap())); }
+    v.truncate(n.max(256)); r.shuffle(&mut v); v
 }
 
 // ---- ZiporaHashMap ----------------------------------------------------------------------------------------------
@@ -387,6 +505,20 @@ fn zhm_case<K: Hash + Eq + Clone + Ord + Debug>(c: &mut Case, target: &str, stan
     exec(c, &mut Zhm(m), &pool, &ops, &xo)
 }
 
+
+/// huge histories on the Standard-storage ZiporaHashMap targets (power-of-two or default capacities only: a non power-of-two
+/// capacity leaves 2^popcount(capacity-1) slots reachable, see `huge_capplus1`)
+fn zhm_huge_case<K: Hash + Eq + Clone + Ord + Debug>(c: &mut Case, target: &str, hm: HM, keys: Vec<K>, desc: &str) -> Res {
+    let cfg = zhm_config(target, &mut c.rng)?; let wc = *c.rng.pick(&[0usize, 16, 65536, 131072]); let ctor = c.rng.below(3);
+    let rm = huge_rm(&mut c.rng); let reins = *c.rng.pick(&[0usize, 300, 1500]); let clear_end = c.rng.bool();
+    c.input_str("hasher", hm.name()); c.input_str("config", &format!("{:?}/{:?} cap={} lf={}", cfg.hash_strategy, cfg.storage_strategy, cfg.initial_capacity, cfg.load_factor));
+    c.input_str("keys", desc); c.input_str("plan", &format!("n={} rm={rm:?} reins={reins} clear_end={clear_end}", keys.len())); c.set_nontrivial(true);
+    let b = AdvBuild(hm); DEFAULT_HM.with(|d| d.set(hm));
+    if target == "zhm/with_capacity" { c.input_str("with_capacity", &wc.to_string()); }
+    let m = match catch(|| if target == "zhm/with_capacity" { ZiporaHashMap::<K, u64, AdvBuild>::with_capacity(wc) } else if target == "zhm/default" && ctor == 0 { ZiporaHashMap::<K, u64, AdvBuild>::new() } else if ctor == 1 { ZiporaHashMap::<K, u64, AdvBuild>::with_config(cfg) } else { ZiporaHashMap::<K, u64, AdvBuild>::with_config_and_hasher(cfg, b) }) { Ok(Ok(m)) => m, Ok(Err(e)) => return Err(bad("ctor_err", format!("constructor: {e}"))), Err(p) => return Err(bad(&p.class(), format!("constructor panicked at {}: {}", p.loc, p.msg))) };
+    huge_history(c, &mut Zhm(m), &keys, rm, reins, true, clear_end)
+}
+
 // ---- GoldHashMap --------------------------------------------------------------------------------------------------
 pub struct Gold<L: LinkType> { m: GoldHashMap<AK, u64, L>, default_fast: bool, cap0: usize, rehash_seen: std::cell::Cell<u64> }
 impl<L: LinkType> Sut<AK> for Gold<L> {
@@ -478,6 +610,9 @@ impl Sut<AK> for Easy {
     fn len(&self) -> usize { self.0.len() }
     fn clear(&mut self) -> bool { self.0.clear(); true }
     fn extra(&mut self, w: u8) -> Result<(), String> { match w { 0 => self.0.shrink_to_fit(), 1 => self.0.retain(|_, _| true), 2 => self.0.reserve(10), _ => self.0.set_max_load_factor(0.75) } Ok(()) }
+    // shrink_to_fit rebuilds into ZiporaHashMap::with_capacity(2 * len), a non power-of-two capacity: mask = capacity - 1 then leaves only
+    // 2^popcount(mask) slots reachable and the rebuild of >= ~10^4 entries does not finish within the 60 s watchdog (reported, no oracle class)
+    fn huge_extra_ok(&self, w: u8, live: usize) -> bool { w != 0 || live <= 512 }
     fn coverage(&self, c: &mut Case) { c.note("final_capacity", self.0.capacity() as u64); }
 }
 
@@ -707,6 +842,114 @@ pub fn run(ctx: &mut Ctx) {
                 c.input("keys", &str_bytes(&pool)); c.input("ops", &encode_ops(&ops)); let f = analyze(&ops); note_facts(c, &f, ops.len());
                 let m = if c.rng.bool() { HashStrMap::new() } else { HashStrMap::with_capacity(c.rng.usize_below(100)) };
                 exec(c, &mut HStr(m, false), &pool, &ops, &XO { iter: fam.iter, len_each: true })
+            });
+        }
+    }
+
+    // ================= huge_* families (large-input coverage; a handful of cases per target) =================
+    if !small_only {
+        let nh = ctx.n(1, 10) as u64;
+        // ---- ZiporaHashMap, Standard storage, power-of-two / default capacities
+        for &(target, standard, strkeys) in ZHM_TARGETS {
+            if !standard || target == "zhm/std_cap_nonpow2" { continue; }
+            if strkeys {
+                for idx in 0..nh { ctx.case(target, "huge_grow:sip", idx, |c| { let n = *c.rng.pick(&[65537usize, 70001, 131073]); let keys = huge_str_keys(&mut c.rng, n); zhm_huge_case(c, target, HM::Sip, keys, &format!("strings n={n}")) }); }
+                continue;
+            }
+            for (hi, hm) in [HM::Sip, HM::Mix, HM::Ident].into_iter().enumerate() {
+                // quick tier: one hasher per target (rotating), thorough: all three
+                let ti = ZHM_TARGETS.iter().position(|t| t.0 == target).unwrap_or(0);
+                if quick && (ti + hi) % 3 != 0 { continue; }
+                let g = format!("huge_grow:{}", hm.name());
+                for idx in 0..nh {
+                    ctx.case(target, &g, idx, |c| {
+                        let n = *c.rng.pick(HUGE_NS);
+                        // identity hashing: shapes whose low bits are constant would make every key collide (quadratic), keep dense / random
+                        let shape = if hm == HM::Ident { *c.rng.pick(&[0u32, 2]) } else { c.rng.below(4) as u32 };
+                        let keys = huge_u64_keys(&mut c.rng, n, shape);
+                        zhm_huge_case(c, target, hm, keys, &format!("{} n={n}", HUGE_SHAPES[shape as usize]))
+                    });
+                }
+            }
+        }
+        // ---- capacity arguments just above a power of two (ZiporaHashMap::with_capacity / EasyHashMap builder): few keys, the table
+        // over-allocates because only 2^popcount(capacity-1) slots are reachable, so the key count stays small
+        for idx in 0..ctx.n(2, 8) as u64 {
+            ctx.case("zhm/with_capacity", "huge_capplus1:sip", idx, |c| {
+                let cap = *c.rng.pick(&[65537usize, 131073, 196609, 262145]); let n = c.rng.urange(5, 12);
+                let keys = huge_u64_keys(&mut c.rng, n, 2); c.input_str("with_capacity", &cap.to_string()); c.input("keys", &u64_bytes(&keys)); c.tag("nonpow2_capacity"); c.set_nontrivial(true);
+                DEFAULT_HM.with(|d| d.set(HM::Sip));
+                let m = ZiporaHashMap::<u64, u64, AdvBuild>::with_capacity(cap).map_err(|e| bad("ctor_err", format!("with_capacity({cap}): {e}")))?;
+                huge_history(c, &mut Zhm(m), &keys, HugeRm::EveryOther, 3, true, true)
+            });
+            ctx.case("easy/builder", "huge_capplus1:khash", idx, |c| {
+                let cap = *c.rng.pick(&[65537usize, 131073, 196609, 262145]); let n = c.rng.urange(5, 12);
+                let keys = ak_pool(&mut c.rng, n, 0); c.input_str("builder", &format!("cap={cap}")); c.input("keys", &ak_bytes(&keys)); c.tag("nonpow2_capacity"); c.set_nontrivial(true);
+                let m = EasyHashMap::<AK, u64>::initial_capacity(cap).build();
+                huge_history(c, &mut Easy(m), &keys, HugeRm::EveryOther, 3, false, true)
+            });
+        }
+        // ---- GoldHashMap: all configurations, both link types; initial capacities just above powers of two
+        for cfgname in GOLD_CFGS {
+            for (lt, t) in [("gold32", 0), ("gold64", 1)] {
+                if t == 1 && !matches!(*cfgname, "default" | "small" | "large" | "high_churn") { continue; }
+                let target = format!("{lt}/{cfgname}");
+                for idx in 0..nh * 2 {
+                    ctx.case(&target, "huge_grow:khash", idx, |c| {
+                        let n = *c.rng.pick(HUGE_NS); let shape = c.rng.below(4) as u32; let keys: Vec<AK> = huge_u64_keys(&mut c.rng, n, shape).into_iter().map(|id| AK { id, hm: 0 }).collect();
+                        let mut cfg = gold_config(cfgname); if c.rng.bool() { cfg.initial_capacity = *c.rng.pick(&[65537usize, 131073, 196609, 262145]); }
+                        let rm = huge_rm(&mut c.rng); let reins = *c.rng.pick(&[0usize, 3000, 70000]); let clear_end = c.rng.bool();
+                        c.input_str("config", &format!("{cfg:?}")); c.input_str("keys", &format!("{} n={n}", HUGE_SHAPES[shape as usize])); c.input_str("plan", &format!("rm={rm:?} reins={reins} clear_end={clear_end}")); c.set_nontrivial(true);
+                        let fast = cfg.default_iteration_strategy == IterationStrategy::Fast;
+                        if t == 0 { let m = GoldHashMap::<AK, u64, u32>::with_config(cfg); let cap0 = m.capacity(); huge_history(c, &mut Gold { m, default_fast: fast, cap0, rehash_seen: std::cell::Cell::new(0) }, &keys, rm, reins, true, clear_end) }
+                        else { let m = GoldHashMap::<AK, u64, u64>::with_config(cfg); let cap0 = m.capacity(); huge_history(c, &mut Gold { m, default_fast: fast, cap0, rehash_seen: std::cell::Cell::new(0) }, &keys, rm, reins, true, clear_end) }
+                    });
+                }
+            }
+        }
+        // ---- GoldHashIdx (every value is a pooled chunk: keep to the 2^16 boundary)
+        for target in ["goldidx/new", "goldidx/with_pool"] {
+            for idx in 0..nh * 2 {
+                ctx.case(target, "huge_grow:khash", idx, |c| {
+                    let n = *c.rng.pick(&[65535usize, 65536, 65537, 70001]); let shape = c.rng.below(4) as u32; let keys: Vec<AK> = huge_u64_keys(&mut c.rng, n, shape).into_iter().map(|id| AK { id, hm: 0 }).collect();
+                    let rm = huge_rm(&mut c.rng); let reins = *c.rng.pick(&[0usize, 3000, 40000]); let cap = *c.rng.pick(&[0usize, 65536, 65537, 131073]);
+                    c.input_str("keys", &format!("{} n={n}", HUGE_SHAPES[shape as usize])); c.input_str("plan", &format!("cap={cap} rm={rm:?} reins={reins}")); c.set_nontrivial(true);
+                    let m = if target == "goldidx/new" { GoldHashIdx::with_capacity(cap) } else { let p = SecureMemoryPool::new(SecurePoolConfig::new(16, 1000, 8)).map_err(|e| bad("ctor_err", format!("SecureMemoryPool::new: {e}")))?; GoldHashIdx::with_pool(cap, p) };
+                    huge_history(c, &mut Idx(m), &keys, rm, reins, false, false)
+                });
+            }
+        }
+        // ---- SmallMap far beyond the inline threshold, EasyHashMap across many growth rebuilds, HashStrMap
+        for (target, iter) in [("smallmap/promote", true), ("smallmap/promote_noiter", false)] {
+            for idx in 0..nh * 2 {
+                ctx.case(target, "huge_grow:khash", idx, |c| {
+                    let n = *c.rng.pick(&[65535usize, 65536, 65537, 70001, 131073]); let shape = c.rng.below(4) as u32; let keys: Vec<AK> = huge_u64_keys(&mut c.rng, n, shape).into_iter().map(|id| AK { id, hm: 0 }).collect();
+                    let rm = huge_rm(&mut c.rng); let reins = *c.rng.pick(&[0usize, 300, 1500]); let clear_end = c.rng.bool();
+                    c.input_str("keys", &format!("{} n={n}", HUGE_SHAPES[shape as usize])); c.input_str("plan", &format!("rm={rm:?} reins={reins} clear_end={clear_end}")); c.tag("promoted"); c.set_nontrivial(true);
+                    huge_history(c, &mut Small(SmallMap::new()), &keys, rm, reins, iter, clear_end)
+                });
+            }
+        }
+        for target in ["easy/new", "easy/builder"] {
+            for idx in 0..nh * 2 {
+                ctx.case(target, "huge_grow:khash", idx, |c| {
+                    // put() with auto_grow evaluates inner.len(), which is O(capacity): the auto-growing variants stay at a few 10^4 keys (ten
+                    // rebuild steps); with auto_grow(false) the inner map grows by itself and > 2^16 / 2^17 keys are affordable
+                    let ag = target == "easy/new" || idx % 2 == 1;
+                    let n = if ag { *c.rng.pick(&[16385usize, 20011, 24577]) } else { *c.rng.pick(&[65535usize, 65536, 65537, 70001, 100003, 131073]) };
+                    let shape = c.rng.below(4) as u32; let keys: Vec<AK> = huge_u64_keys(&mut c.rng, n, shape).into_iter().map(|id| AK { id, hm: 0 }).collect();
+                    let rm = huge_rm(&mut c.rng); let reins = *c.rng.pick(&[0usize, 300, 1500]); let clear_end = c.rng.bool();
+                    let m = if target == "easy/new" { EasyHashMap::new() } else { let cap = if ag { *c.rng.pick(&[0usize, 16, 1024]) } else { *c.rng.pick(&[0usize, 16, 65536, 131072]) }; let lf = *c.rng.pick(&[0.5f64, 0.75, 0.95]); c.input_str("builder", &format!("cap={cap} lf={lf} auto_grow={ag}")); EasyHashMap::<AK, u64>::initial_capacity(cap).max_load_factor(lf).auto_grow(ag).build() };
+                    c.input_str("keys", &format!("{} n={n}", HUGE_SHAPES[shape as usize])); c.input_str("plan", &format!("rm={rm:?} reins={reins} clear_end={clear_end}")); c.set_nontrivial(true);
+                    huge_history(c, &mut Easy(m), &keys, rm, reins, false, clear_end)
+                });
+            }
+        }
+        for idx in 0..nh * 2 {
+            ctx.case("hashstr", "huge_grow", idx, |c| {
+                let n = *c.rng.pick(&[65537usize, 70001, 131073]); let keys = huge_str_keys(&mut c.rng, n); let rm = huge_rm(&mut c.rng); let cap = *c.rng.pick(&[0usize, 65537, 131073]);
+                c.input_str("plan", &format!("strings n={n} cap={cap} rm={rm:?}")); c.set_nontrivial(true);
+                huge_history(c, &mut HStr(HashStrMap::with_capacity(cap), false), &keys, rm, 3000, true, true)
             });
         }
     }
